@@ -855,9 +855,15 @@ impl From<&ClusterState> for ClusterStateSnapshot {
     }
 }
 
-#[cfg(not(test))]
+#[cfg(not(any(test, feature = "verif")))]
 fn random_generator() -> impl Rng {
     rand::rng()
+}
+
+// With the verification hooks on, the shuffle is seeded by the harness (replayable traces).
+#[cfg(all(not(test), feature = "verif"))]
+fn random_generator() -> impl Rng {
+    crate::verif::shuffle_rng()
 }
 
 // We use a deterministic random generator in tests.
